@@ -250,6 +250,11 @@ func (c *tracingHTTP2Conn) closeStreamLocked(streamID uint32, stream *http2Strea
 		stream.requestTracer.emitUnfinished()
 		stream.responseTracer.emitUnfinished()
 		stream.builder.add(&ResponseBodyEnd{Err: err})
+	} else if err != nil {
+		// The stream was reset before any response was seen, so
+		// the operation has failed without a response.
+		stream.requestTracer.emitUnfinished()
+		stream.builder.add(&ResponseError{Err: err})
 	}
 }
 
